@@ -8,12 +8,12 @@ FORMULAS = dict(
     properties=["C18_AttMarkedObserved", "C18_CallRefundExact", "C18_GovMarkedFailed", "C18_IbcErrorAck"],
     p_properties=["P_C18_AttMarkedObserved", "P_C18_CallRefundExact", "P_C18_GovMarkedFailed", "P_C18_IbcErrorAck"])
 
-NGAS = 10  # opcode boundaries of the worker contract (PUSH1 PUSH1 SSTORE x3, STOP); the harness checks it
+NGAS = 9  # opcode boundaries of the worker contract (PUSH1 PUSH1 SSTORE x3; the final STOP is free); the harness checks it
 ATT = ["none", "exists", "fxdec", "oset"]
 GOV = ["none", "first", "middle", "last", "midwrite"]
 IBC = ["none", "memo0", "memo1", "memoInvalid", "alias", "unknown", "bech", "pairOff"]
 CALL_BASE = ["none", "revert0", "revert1", "pair1", "pair2", "pair3", "unknown", "gaslow"]
-CALL_Q = CALL_BASE + ["gas0", "gas4", "gas9"]                       # a few opcode boundaries
+CALL_Q = CALL_BASE + ["gas0", "gas4", "gas8"]                       # a few opcode boundaries
 CALL_T = CALL_BASE + ["gas%d" % i for i in range(NGAS)]             # every executed opcode boundary
 REFUND = ["rA", "rB"]
 
